@@ -1,7 +1,1870 @@
-//! C25: not implemented yet.
+//! C25: HNSW search returns live, correctly ranked neighbours.
+//!
+//! Real `PersistentHnswIndex` files are driven through the public API with generated op histories
+//! (insert / delete_by_row_id / vacuum_batch / sync+reopen / search); the oracle is a brute-force
+//! map row_id -> vector of the live rows. The SQ8 codec is checked separately (also under Miri).
+use crate::report::{catch, Ctx};
+use crate::rng::{fnv, Rng};
 use crate::Args;
+use serde_json::{json, Value};
+use std::collections::{BTreeMap, BTreeSet, HashMap, HashSet};
+use std::path::{Path, PathBuf};
+use turdb::hnsw::quantization::{SQ8Vector, SQ8VectorRef};
+use turdb::hnsw::search::HnswSearchContext;
+use turdb::hnsw::{DistanceFunction, NodeId, PersistentHnswIndex, QuantizationType, SearchResult};
 
-pub fn run(_a: &Args) -> i32 {
-    println!("INCONCLUSIVE property=C25 reason=check not implemented yet");
-    2
+// ------------------------------------------------------------------------------------------------
+// history representation
+// ------------------------------------------------------------------------------------------------
+
+#[derive(Clone, Debug)]
+pub struct Probe {
+    q: Vec<f32>,
+    k: usize,
+    ef: usize,
+}
+
+#[derive(Clone, Debug)]
+pub enum Op {
+    Insert { row: u64, v: Vec<f32>, rnd: f64 },
+    Delete { row: u64 },
+    Vacuum { max: usize },
+    Reopen { probes: Vec<Probe> },
+    Search(Probe),
+}
+
+#[derive(Clone, Debug)]
+pub struct Params {
+    dim: usize,
+    m: u16,
+    efc: u16,
+    efs: u16,
+    /// 0 = L2, 1 = Cosine, 2 = InnerProduct
+    dist: u8,
+    /// 0 = None, 1 = SQ8 (only recorded in the header; the index stores no vectors)
+    quant: u8,
+    /// true: insert_with_callback with the table lookup; false: plain insert (what the DML path calls)
+    callback: bool,
+}
+
+pub struct Viol {
+    assertion: &'static str,
+    sig: String,
+    detail: Value,
+    op_index: usize,
+}
+
+#[derive(Default)]
+pub struct Outcome {
+    viols: Vec<Viol>,
+    searches: u64,
+    searches_with_live: u64,
+    searches_after_delete: u64,
+    searches_entry_deleted: u64,
+    complete_checked: u64,
+    complete_checked_within_capacity: u64,
+    reopens: u64,
+    reopen_probes: u64,
+    inserts_ok: u64,
+    inserts_err: u64,
+    deletes: u64,
+    vacuums: u64,
+    vacuumed_nodes: u64,
+    skipped_ops: u64,
+    truncated_by_insert_error: bool,
+    max_level_seen: u8,
+    max_nodes: usize,
+    multi_page: bool,
+    layout_overflowed: bool,
+    layout_model_mismatch: bool,
+}
+
+fn fmt_f(v: &[f32]) -> Value {
+    json!(v.iter().map(|x| *x as f64).collect::<Vec<f64>>())
+}
+
+fn op_json(op: &Op) -> Value {
+    match op {
+        Op::Insert { row, v, rnd } => json!({"insert": row, "v": fmt_f(v), "rnd": rnd}),
+        Op::Delete { row } => json!({"delete_by_row_id": row}),
+        Op::Vacuum { max } => json!({"vacuum_batch": max}),
+        Op::Reopen { probes } => json!({"sync_reopen_probes": probes.iter().map(|p| json!({"q": fmt_f(&p.q), "k": p.k, "ef": p.ef})).collect::<Vec<_>>()}),
+        Op::Search(p) => json!({"search": fmt_f(&p.q), "k": p.k, "ef": p.ef}),
+    }
+}
+
+fn params_json(p: &Params) -> Value {
+    let d = ["L2", "Cosine", "InnerProduct"][p.dist as usize];
+    let q = ["None", "SQ8"][p.quant as usize];
+    let api = if p.callback { "insert_with_callback(table lookup)" } else { "insert" };
+    json!({"dim": p.dim, "m": p.m, "ef_construction": p.efc, "ef_search_header": p.efs, "distance_fn": d, "quantization": q, "insert_api": api})
+}
+
+fn hist_json(p: &Params, ops: &[Op]) -> Value {
+    json!({"params": params_json(p), "ops": ops.iter().map(op_json).collect::<Vec<_>>()})
+}
+
+fn hist_hash(p: &Params, ops: &[Op]) -> u64 {
+    let mut b: Vec<u8> = vec![p.dim as u8, p.m as u8, p.efc as u8, p.dist, p.quant, p.callback as u8];
+    for op in ops {
+        match op {
+            Op::Insert { row, v, rnd } => {
+                b.push(1);
+                b.extend_from_slice(&row.to_le_bytes());
+                for x in v {
+                    b.extend_from_slice(&x.to_bits().to_le_bytes());
+                }
+                b.extend_from_slice(&rnd.to_bits().to_le_bytes());
+            }
+            Op::Delete { row } => {
+                b.push(2);
+                b.extend_from_slice(&row.to_le_bytes());
+            }
+            Op::Vacuum { max } => {
+                b.push(3);
+                b.extend_from_slice(&(*max as u64).to_le_bytes());
+            }
+            Op::Reopen { probes } => {
+                b.push(4);
+                b.push(probes.len() as u8);
+            }
+            Op::Search(pr) => {
+                b.push(5);
+                for x in &pr.q {
+                    b.extend_from_slice(&x.to_bits().to_le_bytes());
+                }
+                b.extend_from_slice(&(pr.k as u32).to_le_bytes());
+                b.extend_from_slice(&(pr.ef as u32).to_le_bytes());
+            }
+        }
+    }
+    fnv(&b)
+}
+
+// ------------------------------------------------------------------------------------------------
+// exact distances (independent definitions, f64)
+// ------------------------------------------------------------------------------------------------
+
+fn l2sq(a: &[f32], b: &[f32]) -> f64 {
+    a.iter().zip(b).map(|(x, y)| (*x as f64 - *y as f64) * (*x as f64 - *y as f64)).sum()
+}
+
+fn dot(a: &[f32], b: &[f32]) -> f64 {
+    a.iter().zip(b).map(|(x, y)| *x as f64 * *y as f64).sum()
+}
+
+/// the distance the index was configured with (module doc: L2, 1 - cos, -dot)
+fn metric(dist: u8, a: &[f32], b: &[f32]) -> f64 {
+    match dist {
+        0 => l2sq(a, b),
+        1 => {
+            let n = (dot(a, a) * dot(b, b)).sqrt();
+            if n == 0.0 {
+                1.0
+            } else {
+                1.0 - dot(a, b) / n
+            }
+        }
+        _ => -dot(a, b),
+    }
+}
+
+/// rounding allowance for an f32 evaluation of a sum of `dim` squares (any association, FMA or not)
+fn l2_tol(dim: usize, d: f64) -> f64 {
+    4.0 * (dim as f64 + 4.0) * (f32::EPSILON as f64) * d + 1e-37
+}
+
+// ------------------------------------------------------------------------------------------------
+// executor
+// ------------------------------------------------------------------------------------------------
+
+struct NodeRec {
+    id: NodeId,
+    row: u64,
+    deleted: bool,
+}
+
+fn nkey(n: NodeId) -> u64 {
+    ((n.page_no() as u64) << 16) | n.slot_index() as u64
+}
+
+fn res_json(rs: &[SearchResult]) -> Value {
+    json!(rs
+        .iter()
+        .map(|r| json!({"row_id": r.row_id, "distance": if r.distance.is_finite() { json!(r.distance) } else { json!(format!("{}", r.distance)) }, "node": [r.node_id.page_no(), r.node_id.slot_index()]}))
+        .collect::<Vec<_>>())
+}
+
+fn dist_fn(d: u8) -> DistanceFunction {
+    match d {
+        1 => DistanceFunction::Cosine,
+        2 => DistanceFunction::InnerProduct,
+        _ => DistanceFunction::L2,
+    }
+}
+
+struct Exec<'a> {
+    p: &'a Params,
+    path: &'a Path,
+    idx: Option<PersistentHnswIndex>,
+    live: BTreeMap<u64, Vec<f32>>,
+    ever_deleted_rows: BTreeSet<u64>,
+    nodes: Vec<NodeRec>,
+    node_by_key: HashMap<u64, usize>,
+    any_delete: bool,
+    out: Outcome,
+    cur_op: usize,
+    /// slot sizes per node page, in allocation order (the page layout is a function of these)
+    pages: HashMap<u32, Vec<usize>>,
+    /// set once a node page holds more data than its 13-bit slot offsets can address
+    layout_overflow: Option<Value>,
+    layout_model_off: bool,
+    predicted: Option<(u32, u16)>,
+}
+
+/// A slot directory entry keeps the data offset in 13 bits (storage.rs SlotEntry::encode) while the
+/// page is 16384 bytes. Returns a description of the first stored extent that lands on the slot
+/// directory/header or on another node, computed from the allocation sizes alone.
+fn page_overflow(sizes: &[usize]) -> Option<Value> {
+    const PAGE: usize = 16384;
+    let n = sizes.len();
+    let dir_end = 64 + 4 * n;
+    let mut ext: Vec<(usize, usize)> = vec![];
+    let mut cum = 0usize;
+    for s in sizes {
+        cum += s;
+        if cum > PAGE {
+            return None;
+        }
+        let t = PAGE - cum;
+        let st = t & 0x1FFF;
+        ext.push((st, st + s));
+    }
+    for (j, e) in ext.iter().enumerate() {
+        if e.0 < dir_end {
+            return Some(json!({"slot": j, "true_offset": PAGE - sizes[..=j].iter().sum::<usize>(), "stored_offset": e.0, "overlaps": "page header / slot directory", "slots_in_page": n}));
+        }
+        for (i, f) in ext.iter().enumerate().take(j) {
+            if e.0 < f.1 && f.0 < e.1 {
+                return Some(json!({"slot": j, "true_offset": PAGE - sizes[..=j].iter().sum::<usize>(), "stored_offset": e.0, "overlaps": format!("node data of slot {}", i), "slots_in_page": n}));
+            }
+        }
+    }
+    None
+}
+
+pub const OVERFLOW_CAUSE: &str = "node_page_slot_offset_truncated_to_13_bits";
+
+impl<'a> Exec<'a> {
+    fn viol(&mut self, assertion: &'static str, sig: String, detail: Value) {
+        let op_index = self.cur_op;
+        let (sig, detail) = match &self.layout_overflow {
+            // everything observed on an index whose node pages overwrite themselves has this one cause
+            Some(l) if !sig.starts_with("C25/no_panic/") => (format!("C25/{}/{}", assertion, OVERFLOW_CAUSE), json!({"page_layout": l, "would_be_sig": sig, "observed": detail})),
+            Some(l) => (format!("{}/{}", sig, OVERFLOW_CAUSE), json!({"page_layout": l, "observed": detail})),
+            None => (sig, detail),
+        };
+        self.out.viols.push(Viol { assertion, sig, detail, op_index });
+    }
+
+    /// Where `allocate_node` will put the next node (mod.rs:883-904, storage.rs can_fit): the current
+    /// (= last) page if its free space holds size + slot + 64 reserve, else a fresh page. The model is
+    /// updated BEFORE the insert runs so that a failure inside that very insert is attributed too.
+    fn predict_allocation(&mut self, rnd: f64) {
+        const PAGE: usize = 16384;
+        let level = turdb::hnsw::operations::select_level(rnd, turdb::hnsw::operations::calculate_ml(self.p.m));
+        let size = turdb::hnsw::HnswNode::max_serialized_size(level);
+        let last = self.pages.keys().max().copied().unwrap_or(0);
+        let fits = match self.pages.get(&last) {
+            Some(v) => {
+                let cum: usize = v.iter().sum();
+                let free = (PAGE - cum).saturating_sub(64 + 4 * v.len());
+                free >= size + 4 + 64
+            }
+            None => false,
+        };
+        let page = if fits { last } else { last + 1 };
+        let v = self.pages.entry(page).or_default();
+        v.push(size);
+        self.predicted = Some((page, (v.len() - 1) as u16));
+        if std::env::var("C25_DEBUG").is_ok() {
+            eprintln!("alloc level={} size={} page={} slot={} cum={}", level, size, page, v.len() - 1, v.iter().sum::<usize>());
+        }
+        if self.layout_overflow.is_none() && !self.layout_model_off {
+            if let Some(mut l) = page_overflow(v) {
+                l["page"] = json!(page);
+                l["nodes_allocated_in_index_before"] = json!(self.nodes.len());
+                self.layout_overflow = Some(l);
+                self.out.layout_overflowed = true;
+            }
+        }
+    }
+
+    fn confirm_allocation(&mut self, nid: NodeId) {
+        if self.layout_overflow.is_none() && self.predicted != Some((nid.page_no(), nid.slot_index())) {
+            // allocation not as modelled on an undamaged page: make no layout claim in this history
+            // (after an established overflow the page header itself is overwritten, so deviations
+            // from the model are a consequence, not a refutation)
+            self.layout_model_off = true;
+            self.out.layout_model_mismatch = true;
+        }
+    }
+
+    fn entry_deleted(&self) -> bool {
+        let idx = self.idx.as_ref().unwrap();
+        match idx.index().entry_point() {
+            Some(ep) => self.node_by_key.get(&nkey(ep)).map(|i| self.nodes[*i].deleted).unwrap_or(false),
+            None => false,
+        }
+    }
+
+    fn deleted_node_count(&self) -> usize {
+        self.nodes.iter().filter(|n| n.deleted).count()
+    }
+
+    /// link capacity below which every insert can link bidirectionally to everything it finds
+    fn within_capacity(&self) -> bool {
+        let cap = (self.p.m as usize * 2).min(turdb::hnsw::MAX_L0_NEIGHBORS);
+        self.nodes.len() <= cap + 1 && self.nodes.len() <= self.p.efc as usize
+    }
+
+    fn raw_search(&self, pr: &Probe) -> Result<Result<Vec<SearchResult>, String>, String> {
+        let idx = self.idx.as_ref().unwrap();
+        let live = &self.live;
+        catch(|| {
+            let mut sctx = HnswSearchContext::new(pr.ef, 1024);
+            idx.search(&pr.q, pr.k, &mut sctx, |rid| live.get(&rid).cloned()).map_err(|e| format!("{:#}", e))
+        })
+    }
+
+    /// level-0 reachability from the entry point through nodes that `read_node` can read
+    fn reach_info(&self, target: NodeId) -> (bool, usize, usize) {
+        let idx = self.idx.as_ref().unwrap();
+        // inbound links to target from readable nodes, and how many of target's own neighbours are full
+        let mut inbound = 0usize;
+        for n in &self.nodes {
+            if let Ok(node) = idx.read_node(n.id) {
+                if node.neighbors_at_level(0).iter().any(|x| *x == target) {
+                    inbound += 1;
+                }
+            }
+        }
+        let mut out_full = 0usize;
+        if let Ok(t) = idx.read_node(target) {
+            for nb in t.neighbors_at_level(0) {
+                if let Ok(n) = idx.read_node(*nb) {
+                    if n.level0_neighbor_count() as usize >= turdb::hnsw::MAX_L0_NEIGHBORS {
+                        out_full += 1;
+                    }
+                }
+            }
+        }
+        let mut reachable = false;
+        if let Some(ep) = idx.index().entry_point() {
+            let mut seen: HashSet<u64> = HashSet::new();
+            let mut stack = vec![ep];
+            seen.insert(nkey(ep));
+            while let Some(c) = stack.pop() {
+                if c == target {
+                    reachable = true;
+                    break;
+                }
+                if let Ok(node) = idx.read_node(c) {
+                    for nb in node.neighbors_at_level(0) {
+                        if seen.insert(nkey(*nb)) {
+                            stack.push(*nb);
+                        }
+                    }
+                }
+            }
+        }
+        (reachable, inbound, out_full)
+    }
+
+    fn check_search(&mut self, pr: &Probe) {
+        self.out.searches += 1;
+        let entry_deleted = self.entry_deleted();
+        if !self.live.is_empty() {
+            self.out.searches_with_live += 1;
+        }
+        if self.any_delete {
+            self.out.searches_after_delete += 1;
+        }
+        if entry_deleted {
+            self.out.searches_entry_deleted += 1;
+        }
+        let ctxj = json!({"k": pr.k, "ef_search": pr.ef, "query": fmt_f(&pr.q), "live_rows": self.live.len(), "nodes_allocated": self.nodes.len(),
+                          "soft_deleted_nodes": self.deleted_node_count(), "entry_point_deleted": entry_deleted});
+        let rs = match self.raw_search(pr) {
+            Err(p) => {
+                let site = crate::report::panic_site(&p);
+                self.viol("no_panic", format!("C25/no_panic/search@{}", site), json!({"panic": p, "search": ctxj}));
+                return;
+            }
+            Ok(Err(e)) => {
+                self.viol("search_ok", "C25/search_ok/search_returned_err".to_string(), json!({"err": e, "search": ctxj}));
+                return;
+            }
+            Ok(Ok(rs)) => rs,
+        };
+        let resj = res_json(&rs);
+        // at_most_k
+        if rs.len() > pr.k {
+            self.viol("at_most_k", "C25/at_most_k/more_than_k_results".into(), json!({"search": ctxj, "results": resj}));
+        }
+        // distinct
+        let mut seen = HashSet::new();
+        let mut dup_live = false;
+        let mut dup_placeholder = false;
+        for r in &rs {
+            if !seen.insert(r.row_id) {
+                let node_deleted = self.node_by_key.get(&nkey(r.node_id)).map(|i| self.nodes[*i].deleted).unwrap_or(false);
+                if r.row_id == 0 && node_deleted {
+                    dup_placeholder = true;
+                } else {
+                    dup_live = true;
+                }
+            }
+        }
+        if dup_live {
+            self.viol("distinct", "C25/distinct/duplicate_row_id".into(), json!({"search": ctxj, "results": resj}));
+        } else if dup_placeholder {
+            self.viol("distinct", "C25/distinct/row_id_0_placeholder_repeated_for_soft_deleted_nodes".into(), json!({"search": ctxj, "results": resj}));
+        }
+        // live_only
+        let mut bad_placeholder = 0;
+        let mut bad_deleted = 0;
+        let mut bad_other = 0;
+        for r in &rs {
+            if !self.live.contains_key(&r.row_id) {
+                let node_deleted = self.node_by_key.get(&nkey(r.node_id)).map(|i| self.nodes[*i].deleted).unwrap_or(false);
+                if r.row_id == 0 && node_deleted {
+                    bad_placeholder += 1;
+                } else if self.ever_deleted_rows.contains(&r.row_id) {
+                    bad_deleted += 1;
+                } else {
+                    bad_other += 1;
+                }
+            }
+        }
+        if bad_placeholder > 0 {
+            self.viol(
+                "live_only",
+                "C25/live_only/row_id_0_placeholder_for_soft_deleted_node".into(),
+                json!({"search": ctxj, "results": resj, "note": "a soft-deleted node is returned as a result with row_id 0 and distance inf"}),
+            );
+        }
+        if bad_deleted > 0 {
+            self.viol("live_only", "C25/live_only/deleted_row_id_returned".into(), json!({"search": ctxj, "results": resj}));
+        }
+        if bad_other > 0 {
+            self.viol("live_only", "C25/live_only/unknown_row_id_returned".into(), json!({"search": ctxj, "results": resj}));
+        }
+        // ranked_by_true_distance (over the live entries, in returned order)
+        let live_rs: Vec<&SearchResult> = rs.iter().filter(|r| self.live.contains_key(&r.row_id)).collect();
+        let dim = self.p.dim;
+        let exact_l2: Vec<f64> = live_rs.iter().map(|r| l2sq(&pr.q, &self.live[&r.row_id])).collect();
+        let exact_m: Vec<f64> = live_rs.iter().map(|r| metric(self.p.dist, &pr.q, &self.live[&r.row_id])).collect();
+        let ordered = |ds: &[f64], l2like: bool| -> bool {
+            ds.windows(2).all(|w| {
+                let tol = if l2like { l2_tol(dim, w[0].max(w[1])) } else { 1e-5 * (1.0 + w[0].abs().max(w[1].abs())) };
+                w[0] <= w[1] + tol
+            })
+        };
+        let l2_ok = ordered(&exact_l2, true);
+        let dist_ok = live_rs.iter().zip(&exact_l2).all(|(r, d)| ((r.distance as f64) - d).abs() <= l2_tol(dim, *d));
+        if self.p.dist == 0 {
+            if !l2_ok {
+                self.viol("ranked_by_true_distance", "C25/ranked_by_true_distance/order_not_nondecreasing_l2".into(), json!({"search": ctxj, "results": resj, "exact_l2_squared": exact_l2}));
+            } else if !dist_ok {
+                self.viol("ranked_by_true_distance", "C25/ranked_by_true_distance/returned_distance_not_exact_l2_squared".into(), json!({"search": ctxj, "results": resj, "exact_l2_squared": exact_l2}));
+            }
+        } else {
+            let name = ["L2", "Cosine", "InnerProduct"][self.p.dist as usize];
+            let m_ok = ordered(&exact_m, false);
+            let mdist_ok = live_rs.iter().zip(&exact_m).all(|(r, d)| ((r.distance as f64) - d).abs() <= 1e-4 * (1.0 + d.abs()));
+            if !m_ok || !mdist_ok {
+                if l2_ok && dist_ok {
+                    self.viol(
+                        "ranked_by_true_distance",
+                        format!("C25/ranked_by_true_distance/distance_fn_{}_ignored_search_uses_l2_squared", name),
+                        json!({"search": ctxj, "results": resj, "exact_metric": exact_m, "exact_l2_squared": exact_l2, "order_under_metric_ok": m_ok, "distances_equal_metric": mdist_ok}),
+                    );
+                } else {
+                    self.viol("ranked_by_true_distance", format!("C25/ranked_by_true_distance/order_or_distance_wrong_{}", name), json!({"search": ctxj, "results": resj, "exact_metric": exact_m}));
+                }
+            }
+        }
+        // nonempty_if_live_exists
+        if !self.live.is_empty() && pr.k >= 1 && pr.ef >= 1 && live_rs.is_empty() {
+            let cause = if entry_deleted {
+                "after_entry_point_delete"
+            } else if self.any_delete {
+                "after_delete_entry_point_live"
+            } else {
+                "no_delete"
+            };
+            self.viol("nonempty_if_live_exists", format!("C25/nonempty_if_live_exists/{}", cause), json!({"search": ctxj, "results": resj}));
+        }
+        // complete_when_small
+        if !self.live.is_empty() && self.live.len() <= pr.ef && pr.k >= self.live.len() {
+            self.out.complete_checked += 1;
+            let within = self.within_capacity();
+            if within {
+                self.out.complete_checked_within_capacity += 1;
+            }
+            let got: HashSet<u64> = live_rs.iter().map(|r| r.row_id).collect();
+            let missing: Vec<u64> = self.live.keys().filter(|r| !got.contains(r)).cloned().collect();
+            if !missing.is_empty() {
+                let graph_covered = self.nodes.len() <= pr.ef;
+                let mut cause = "unexplained";
+                let mut info = json!(null);
+                if entry_deleted {
+                    cause = "after_entry_point_delete";
+                } else {
+                    // look at the first missing row
+                    let idx = self.idx.as_ref().unwrap();
+                    if let Some(nid) = idx.find_node_by_row_id(missing[0]) {
+                        let (reachable, inbound, out_full) = catch(|| self.reach_info(nid)).unwrap_or((false, 0, 0));
+                        info = json!({"row": missing[0], "node": [nid.page_no(), nid.slot_index()], "reachable_from_entry_via_readable_nodes_level0": reachable,
+                                      "inbound_level0_links_from_readable_nodes": inbound, "own_neighbours_with_full_lists": out_full});
+                        if self.any_delete {
+                            cause = if !reachable { "soft_deleted_node_blocks_traversal" } else { "after_delete_reachable_but_missed" };
+                        } else if inbound == 0 && out_full > 0 {
+                            cause = "backlink_dropped_neighbor_list_full";
+                        } else if !reachable {
+                            cause = "unreachable_no_delete";
+                        } else {
+                            cause = "reachable_but_missed";
+                        }
+                    } else {
+                        cause = "live_row_not_in_row_id_map";
+                    }
+                }
+                if !self.any_delete && !graph_covered {
+                    // live <= ef < nodes is impossible without deletes
+                    cause = "unexplained";
+                }
+                let tier = if within { "within_link_capacity" } else { "beyond_link_capacity" };
+                let sig = if cause == "after_entry_point_delete" || cause == "soft_deleted_node_blocks_traversal" {
+                    format!("C25/complete_when_small/{}", cause)
+                } else {
+                    format!("C25/complete_when_small/{}/{}", cause, tier)
+                };
+                self.viol(
+                    "complete_when_small",
+                    sig,
+                    json!({"search": ctxj, "results": resj, "missing_live_rows": missing.iter().take(20).collect::<Vec<_>>(), "missing_count": missing.len(),
+                           "first_missing": info, "nodes_le_ef_search": graph_covered, "link_capacity": tier}),
+                );
+            }
+        }
+    }
+
+    fn norm_results(rs: &[SearchResult]) -> Vec<(u32, u64)> {
+        let mut v: Vec<(u32, u64)> = rs.iter().map(|r| (r.distance.to_bits(), r.row_id)).collect();
+        // ties may legitimately come back in another order; compare as (distance, id) multisets in order of distance
+        v.sort();
+        v
+    }
+
+    fn reopen(&mut self, probes: &[Probe]) {
+        self.out.reopens += 1;
+        let mut before = vec![];
+        for pr in probes {
+            before.push(self.raw_search(pr));
+        }
+        let (ep_b, ml_b, nc_b) = {
+            let i = self.idx.as_ref().unwrap().index();
+            (i.entry_point().map(|e| (e.page_no(), e.slot_index())), i.max_level(), i.node_count())
+        };
+        let r = {
+            let idx = self.idx.as_mut().unwrap();
+            catch(|| idx.sync().map_err(|e| format!("{:#}", e)))
+        };
+        match r {
+            Ok(Ok(())) => {}
+            Ok(Err(e)) => {
+                self.viol("reopen_invariant", "C25/reopen_invariant/sync_failed".into(), json!({"err": e}));
+                return;
+            }
+            Err(p) => {
+                self.viol("no_panic", format!("C25/no_panic/sync@{}", crate::report::panic_site(&p)), json!({"panic": p}));
+                return;
+            }
+        }
+        self.idx = None; // drop the mapping before opening again
+        let path = self.path.to_path_buf();
+        match catch(|| PersistentHnswIndex::open(&path).map_err(|e| format!("{:#}", e))) {
+            Ok(Ok(i)) => self.idx = Some(i),
+            Ok(Err(e)) => {
+                self.viol("reopen_invariant", "C25/reopen_invariant/open_failed".into(), json!({"err": e}));
+                return;
+            }
+            Err(p) => {
+                self.viol("no_panic", format!("C25/no_panic/open@{}", crate::report::panic_site(&p)), json!({"panic": p}));
+                return;
+            }
+        }
+        let (ep_a, ml_a, nc_a) = {
+            let i = self.idx.as_ref().unwrap().index();
+            (i.entry_point().map(|e| (e.page_no(), e.slot_index())), i.max_level(), i.node_count())
+        };
+        for (pr, b) in probes.iter().zip(before) {
+            self.out.reopen_probes += 1;
+            let a = self.raw_search(pr);
+            let same = match (&b, &a) {
+                (Ok(Ok(x)), Ok(Ok(y))) => Self::norm_results(x) == Self::norm_results(y),
+                (Ok(Err(_)), Ok(Err(_))) => true,
+                (Err(_), Err(_)) => true,
+                _ => false,
+            };
+            if !same {
+                let show = |r: &Result<Result<Vec<SearchResult>, String>, String>| match r {
+                    Ok(Ok(x)) => res_json(x),
+                    Ok(Err(e)) => json!({"err": e}),
+                    Err(p) => json!({"panic": p}),
+                };
+                let cause = if ep_a != ep_b {
+                    "entry_point_differs_after_reopen"
+                } else if ml_a != ml_b {
+                    "max_level_differs_after_reopen"
+                } else {
+                    "same_header_different_results"
+                };
+                self.viol(
+                    "reopen_invariant",
+                    format!("C25/reopen_invariant/{}", cause),
+                    json!({"probe": {"q": fmt_f(&pr.q), "k": pr.k, "ef": pr.ef}, "before": show(&b), "after": show(&a),
+                           "header_before": {"entry": ep_b, "max_level": ml_b, "node_count": nc_b}, "header_after": {"entry": ep_a, "max_level": ml_a, "node_count": nc_a}}),
+                );
+                break;
+            }
+        }
+        // the row-id map is rebuilt from the pages: every live row must still be addressable
+        let idx = self.idx.as_ref().unwrap();
+        let lost: Vec<u64> = self.live.keys().filter(|r| idx.find_node_by_row_id(**r).is_none()).cloned().collect();
+        if !lost.is_empty() {
+            self.viol("reopen_invariant", "C25/reopen_invariant/live_row_missing_from_rebuilt_row_id_map".into(), json!({"rows": lost.iter().take(10).collect::<Vec<_>>()}));
+        }
+    }
+
+    fn insert(&mut self, row: u64, v: &[f32], rnd: f64) -> bool {
+        if self.live.contains_key(&row) || v.len() != self.p.dim {
+            self.out.skipped_ops += 1;
+            return true;
+        }
+        let entry_deleted_before = self.entry_deleted();
+        let callback = self.p.callback;
+        let r = {
+            let idx = self.idx.as_mut().unwrap();
+            let live = &self.live;
+            catch(|| {
+                if callback {
+                    idx.insert_with_callback(row, v, rnd, |rid| live.get(&rid).cloned()).map_err(|e| format!("{:#}", e))
+                } else {
+                    idx.insert(row, v, rnd).map_err(|e| format!("{:#}", e))
+                }
+            })
+        };
+        match r {
+            Ok(Ok(nid)) => {
+                self.out.inserts_ok += 1;
+                self.live.insert(row, v.to_vec());
+                self.node_by_key.insert(nkey(nid), self.nodes.len());
+                self.nodes.push(NodeRec { id: nid, row, deleted: false });
+                self.confirm_allocation(nid);
+                if nid.page_no() > 1 {
+                    self.out.multi_page = true;
+                }
+                self.out.max_nodes = self.out.max_nodes.max(self.nodes.len());
+                let ml = self.idx.as_ref().unwrap().index().max_level();
+                self.out.max_level_seen = self.out.max_level_seen.max(ml);
+                true
+            }
+            Ok(Err(e)) => {
+                self.out.inserts_err += 1;
+                let cause = if e.contains("slot is not active") {
+                    if entry_deleted_before {
+                        "after_entry_point_delete_entry_node_unreadable"
+                    } else if self.any_delete {
+                        "soft_deleted_node_selected_as_neighbor_unreadable"
+                    } else {
+                        "slot_not_active_without_delete"
+                    }
+                } else {
+                    "other_error"
+                };
+                self.viol(
+                    "insert_ok",
+                    format!("C25/insert_ok/{}", cause),
+                    json!({"row": row, "v": fmt_f(v), "rnd": rnd, "err": e, "live_rows": self.live.len(), "nodes_allocated": self.nodes.len(),
+                           "soft_deleted_nodes": self.deleted_node_count(), "entry_point_deleted": entry_deleted_before}),
+                );
+                self.out.truncated_by_insert_error = true;
+                false
+            }
+            Err(p) => {
+                self.viol("no_panic", format!("C25/no_panic/insert@{}", crate::report::panic_site(&p)), json!({"panic": p, "row": row, "v": fmt_f(v), "rnd": rnd}));
+                self.out.truncated_by_insert_error = true;
+                false
+            }
+        }
+    }
+
+    fn delete(&mut self, row: u64) -> bool {
+        let nid = self.idx.as_ref().unwrap().find_node_by_row_id(row);
+        let r = {
+            let idx = self.idx.as_mut().unwrap();
+            catch(|| idx.delete_by_row_id(row).map_err(|e| format!("{:#}", e)))
+        };
+        match r {
+            Ok(Ok(())) => {
+                if self.live.remove(&row).is_some() {
+                    self.out.deletes += 1;
+                    self.any_delete = true;
+                    self.ever_deleted_rows.insert(row);
+                    if let Some(n) = nid {
+                        if let Some(i) = self.node_by_key.get(&nkey(n)) {
+                            self.nodes[*i].deleted = true;
+                        }
+                    }
+                }
+                true
+            }
+            Ok(Err(e)) => {
+                self.viol("delete_ok", "C25/delete_ok/delete_by_row_id_err".into(), json!({"row": row, "err": e, "was_live": self.live.contains_key(&row)}));
+                false
+            }
+            Err(p) => {
+                self.viol("no_panic", format!("C25/no_panic/delete@{}", crate::report::panic_site(&p)), json!({"panic": p, "row": row}));
+                false
+            }
+        }
+    }
+
+    fn vacuum(&mut self, max: usize) -> bool {
+        let r = {
+            let idx = self.idx.as_mut().unwrap();
+            catch(|| idx.vacuum_batch(max).map_err(|e| format!("{:#}", e)))
+        };
+        match r {
+            Ok(Ok(n)) => {
+                self.out.vacuums += 1;
+                self.out.vacuumed_nodes += n as u64;
+                true
+            }
+            Ok(Err(e)) => {
+                self.viol("vacuum_ok", "C25/vacuum_ok/vacuum_batch_err".into(), json!({"max": max, "err": e}));
+                false
+            }
+            Err(p) => {
+                self.viol("no_panic", format!("C25/no_panic/vacuum@{}", crate::report::panic_site(&p)), json!({"panic": p, "max": max}));
+                false
+            }
+        }
+    }
+}
+
+static TRACE: std::sync::atomic::AtomicBool = std::sync::atomic::AtomicBool::new(false);
+
+/// run one history on a fresh index file; deterministic in (params, ops)
+pub fn exec(p: &Params, ops: &[Op], path: &Path) -> Outcome {
+    let _ = std::fs::remove_file(path);
+    let quant = if p.quant == 1 { QuantizationType::SQ8 } else { QuantizationType::None };
+    let created = catch(|| PersistentHnswIndex::create(path, 7, 9, p.dim as u16, p.m, p.efc, p.efs, dist_fn(p.dist), quant).map_err(|e| format!("{:#}", e)));
+    let idx = match created {
+        Ok(Ok(i)) => i,
+        other => {
+            let mut out = Outcome::default();
+            let e = match other {
+                Ok(Err(e)) => e,
+                Err(p) => p,
+                _ => String::new(),
+            };
+            out.viols.push(Viol { assertion: "create_ok", sig: "C25/create_ok/create_failed".into(), detail: json!({"err": e, "params": params_json(p)}), op_index: 0 });
+            return out;
+        }
+    };
+    let mut ex = Exec {
+        p,
+        path,
+        idx: Some(idx),
+        live: BTreeMap::new(),
+        ever_deleted_rows: BTreeSet::new(),
+        nodes: vec![],
+        node_by_key: HashMap::new(),
+        any_delete: false,
+        out: Outcome::default(),
+        cur_op: 0,
+        pages: HashMap::new(),
+        layout_overflow: None,
+        layout_model_off: false,
+        predicted: None,
+    };
+    for (i, op) in ops.iter().enumerate() {
+        ex.cur_op = i;
+        if let Op::Insert { row, v, rnd } = op {
+            if !ex.live.contains_key(row) && v.len() == p.dim {
+                ex.predict_allocation(*rnd);
+            }
+        }
+        if TRACE.load(std::sync::atomic::Ordering::Relaxed) {
+            use std::io::Write;
+            println!("O {} {} {}", i, ex.layout_overflow.is_some() as u8, ex.any_delete as u8);
+            let _ = std::io::stdout().flush();
+        }
+        let go_on = match op {
+            Op::Insert { row, v, rnd } => ex.insert(*row, v, *rnd),
+            Op::Delete { row } => ex.delete(*row),
+            Op::Vacuum { max } => ex.vacuum(*max),
+            Op::Reopen { probes } => {
+                ex.reopen(probes);
+                ex.idx.is_some()
+            }
+            Op::Search(pr) => {
+                if pr.q.len() == p.dim {
+                    ex.check_search(pr);
+                }
+                true
+            }
+        };
+        if !go_on {
+            // state after a failed mutation is not defined by the statement: stop this history here
+            break;
+        }
+    }
+    ex.idx = None;
+    let _ = std::fs::remove_file(path);
+    ex.out
+}
+
+// ------------------------------------------------------------------------------------------------
+// generation
+// ------------------------------------------------------------------------------------------------
+
+fn gen_vec(rng: &mut Rng, dim: usize, style: u64, centers: &[Vec<f32>]) -> Vec<f32> {
+    if rng.chance(1, 25) {
+        return vec![0.0; dim];
+    }
+    match style {
+        // tiny integer grid: many duplicates, many ties, zero vectors
+        0 => (0..dim).map(|_| rng.range(-1, 1) as f32).collect(),
+        1 => (0..dim).map(|_| rng.range(-3, 3) as f32 * 0.5).collect(),
+        // unit cube floats
+        2 => (0..dim).map(|_| (rng.f64() * 2.0 - 1.0) as f32).collect(),
+        // clusters with small noise
+        3 => {
+            let c = rng.pick(centers).clone();
+            c.iter().map(|x| x + ((rng.f64() - 0.5) * 1e-3) as f32).collect()
+        }
+        // large magnitudes
+        4 => (0..dim).map(|_| ((rng.f64() * 2.0 - 1.0) * 1.0e4) as f32).collect(),
+        // points on a line (everything collinear)
+        _ => {
+            let t = rng.range(-50, 50) as f32;
+            (0..dim).map(|i| t * (i as f32 + 1.0) * 0.25).collect()
+        }
+    }
+}
+
+fn normalize(v: &mut Vec<f32>) {
+    let n = dot(v, v).sqrt();
+    if n > 0.0 {
+        for x in v.iter_mut() {
+            *x = (*x as f64 / n) as f32;
+        }
+    } else if !v.is_empty() {
+        v[0] = 1.0;
+    }
+}
+
+fn gen_level_rnd(rng: &mut Rng) -> f64 {
+    // (0, 1]; a quarter of the draws are pushed towards 0 so that upper levels exist
+    let u = 1.0 - rng.f64();
+    match rng.below(8) {
+        0 => u.powi(6),
+        1 => u.powi(12),
+        _ => u,
+    }
+}
+
+struct Gen<'r> {
+    rng: &'r mut Rng,
+    p: Params,
+    style: u64,
+    centers: Vec<Vec<f32>>,
+    live: Vec<u64>,
+    vecs: HashMap<u64, Vec<f32>>,
+    dead: Vec<u64>,
+    next_row: u64,
+    inserted_total: usize,
+    ops: Vec<Op>,
+}
+
+impl<'r> Gen<'r> {
+    fn vec(&mut self) -> Vec<f32> {
+        let mut v = if !self.live.is_empty() && self.rng.chance(1, 8) {
+            // exact duplicate of a stored vector
+            let r = *self.rng.pick(&self.live);
+            self.vecs[&r].clone()
+        } else {
+            gen_vec(self.rng, self.p.dim, self.style, &self.centers)
+        };
+        if self.p.dist == 1 {
+            normalize(&mut v); // the module doc requires normalized vectors for Cosine
+        }
+        v
+    }
+    fn probe(&mut self) -> Probe {
+        let n = self.live.len();
+        let q = match self.rng.below(6) {
+            0 if n > 0 => {
+                let r = *self.rng.pick(&self.live);
+                self.vecs[&r].clone()
+            }
+            1 => {
+                let mut z = vec![0.0; self.p.dim];
+                if self.p.dist == 1 {
+                    normalize(&mut z);
+                }
+                z
+            }
+            2 => {
+                let mut v: Vec<f32> = (0..self.p.dim).map(|_| ((self.rng.f64() - 0.5) * 100.0) as f32).collect();
+                if self.p.dist == 1 {
+                    normalize(&mut v);
+                }
+                v
+            }
+            _ => self.vec(),
+        };
+        let total = self.inserted_total;
+        let k = match self.rng.below(10) {
+            0 => 1,
+            1 => self.rng.usize(1, 5),
+            2 => n.max(1),
+            3 => n + 1,
+            4 => 1000,
+            5 => 0,
+            6 => self.rng.usize(1, n.max(1)),
+            _ => total.max(1) + self.rng.usize(0, 3),
+        };
+        let ef = match self.rng.below(10) {
+            0 => 1,
+            1 => self.rng.usize(1, 8),
+            2 => n.max(1),
+            3 => k.max(1),
+            4 => self.rng.usize(1, n.max(1)),
+            5 => 500,
+            _ => total.max(1) + self.rng.usize(0, 40),
+        };
+        Probe { q, k, ef }
+    }
+    fn insert(&mut self) {
+        let row = if !self.dead.is_empty() && self.rng.chance(1, 4) {
+            // UPDATE path: the same row id comes back with a new vector
+            let i = self.rng.below(self.dead.len() as u64) as usize;
+            self.dead.swap_remove(i)
+        } else {
+            self.next_row += 1 + if self.rng.chance(1, 10) { self.rng.below(1 << 40) } else { 0 };
+            self.next_row
+        };
+        let v = self.vec();
+        let rnd = gen_level_rnd(self.rng);
+        self.vecs.insert(row, v.clone());
+        self.live.push(row);
+        self.inserted_total += 1;
+        self.ops.push(Op::Insert { row, v, rnd });
+    }
+    fn delete(&mut self, prefer_first: bool) {
+        if self.live.is_empty() {
+            return;
+        }
+        let i = if prefer_first { 0 } else { self.rng.below(self.live.len() as u64) as usize };
+        let row = self.live.remove(i);
+        self.dead.push(row);
+        self.ops.push(Op::Delete { row });
+    }
+    fn searches(&mut self, n: usize) {
+        for _ in 0..n {
+            let pr = self.probe();
+            self.ops.push(Op::Search(pr));
+        }
+    }
+    fn reopen(&mut self) {
+        let np = self.rng.usize(1, 3);
+        let probes = (0..np).map(|_| self.probe()).collect();
+        self.ops.push(Op::Reopen { probes });
+    }
+}
+
+/// one generated history; each history draws a small subset of features
+pub fn gen_history(rng: &mut Rng, miri_small: bool) -> (Params, Vec<Op>, Vec<&'static str>) {
+    let dim = rng.usize(1, 8);
+    let m = *rng.pick(&[2u16, 2, 3, 4, 4, 6, 8, 12, 16, 16, 16, 16]);
+    let efc = *rng.pick(&[1u16, 2, 4, 8, 16, 40, 100, 100, 100, 200, 200]);
+    let efs = *rng.pick(&[1u16, 8, 32, 32, 100]);
+    let dist = if rng.chance(1, 12) { 1 + rng.below(2) as u8 } else { 0 };
+    let quant = rng.below(2) as u8;
+    let callback = rng.chance(1, 2);
+    let p = Params { dim, m, efc, efs, dist, quant, callback };
+    let style = rng.below(6);
+    let centers: Vec<Vec<f32>> = (0..rng.usize(1, 4)).map(|_| (0..dim).map(|_| (rng.f64() * 4.0 - 2.0) as f32).collect()).collect();
+    // features
+    let f_delete = rng.chance(1, 2);
+    let f_insert_after_delete = f_delete && rng.chance(1, 3);
+    let f_vacuum = f_delete && rng.chance(1, 2);
+    let f_reopen = rng.chance(1, 3);
+    let f_interleave = rng.chance(1, 3);
+    let cap = (m as usize * 2).min(32) + 1;
+    let n_target = if miri_small {
+        rng.usize(1, 12)
+    } else {
+        match rng.below(10) {
+            0 => rng.usize(1, 3),
+            1 | 2 | 3 => rng.usize(2, cap.min(efc as usize).max(2)),
+            // around the point where level-0 neighbour lists are full
+            4 | 5 => rng.usize(cap.saturating_sub(2).max(1), cap + 6),
+            6 | 7 => rng.usize(10, 39),
+            // 40 level-0 nodes fill more than half of a 16 KiB node page
+            8 => rng.usize(36, 70),
+            _ => rng.usize(40, 200),
+        }
+    };
+    let mut feats = vec![];
+    if f_delete {
+        feats.push("delete");
+    }
+    if f_insert_after_delete {
+        feats.push("insert_after_delete");
+    }
+    if f_vacuum {
+        feats.push("vacuum");
+    }
+    if f_reopen {
+        feats.push("reopen");
+    }
+    if f_interleave {
+        feats.push("interleave");
+    }
+    let mut g = Gen { rng, p: p.clone(), style, centers, live: vec![], vecs: HashMap::new(), dead: vec![], next_row: 0, inserted_total: 0, ops: vec![] };
+    if f_interleave {
+        // searches (and the other enabled ops) between the inserts
+        while g.inserted_total < n_target {
+            match g.rng.below(12) {
+                0 | 1 => g.searches(1),
+                2 if f_delete && f_insert_after_delete => g.delete(false),
+                3 if f_reopen && g.rng.chance(1, 4) => g.reopen(),
+                4 if f_vacuum && g.rng.chance(1, 3) => {
+                    let max = *g.rng.pick(&[0usize, 1, 2, 1000]);
+                    g.ops.push(Op::Vacuum { max });
+                }
+                _ => g.insert(),
+            }
+        }
+    } else {
+        for _ in 0..n_target {
+            g.insert();
+        }
+    }
+    let ns = g.rng.usize(2, 6);
+    g.searches(ns);
+    if f_reopen {
+        g.reopen();
+        g.searches(2);
+    }
+    if f_delete {
+        let rounds = g.rng.usize(1, 3);
+        for round in 0..rounds {
+            let nd = match g.rng.below(4) {
+                0 => 1,
+                1 => g.live.len(),
+                _ => g.rng.usize(1, (g.live.len() / 2).max(1)),
+            };
+            for j in 0..nd {
+                // the first inserted row is the initial entry point: aim at it in a third of the histories
+                let first = round == 0 && j == 0 && g.rng.chance(1, 3);
+                g.delete(first);
+            }
+            if g.rng.chance(1, 6) {
+                // deleting an unknown / already deleted row id is a no-op
+                let row = if !g.dead.is_empty() && g.rng.chance(1, 2) { *g.rng.pick(&g.dead) } else { 1 << 50 };
+                g.ops.push(Op::Delete { row });
+            }
+            let ns = g.rng.usize(1, 4);
+            g.searches(ns);
+            if f_vacuum {
+                let max = *g.rng.pick(&[0usize, 1, 2, 1000, 1000]);
+                g.ops.push(Op::Vacuum { max });
+                g.searches(2);
+            }
+            if f_reopen && g.rng.chance(1, 2) {
+                g.reopen();
+                g.searches(1);
+            }
+            if f_insert_after_delete {
+                let ni = g.rng.usize(1, 5);
+                for _ in 0..ni {
+                    g.insert();
+                }
+                g.searches(2);
+            }
+        }
+    }
+    (p, g.ops, feats)
+}
+
+/// small scripted histories that aim at each mechanism directly (vectors still drawn from the seed)
+fn directed(rng: &mut Rng) -> Vec<(&'static str, Params, Vec<Op>)> {
+    let mut out = vec![];
+    for &callback in &[true, false] {
+        let dim = rng.usize(1, 8);
+        let base = Params { dim, m: 16, efc: 100, efs: 32, dist: 0, quant: 0, callback };
+        let mk = |rng: &mut Rng| -> Vec<f32> { (0..dim).map(|_| (rng.f64() * 2.0 - 1.0) as f32).collect() };
+        let all = |rng: &mut Rng| Op::Search(Probe { q: mk(rng), k: 300, ef: 300 });
+        // entry point deleted, then search
+        let mut ops = vec![];
+        for r in 1..=3u64 {
+            ops.push(Op::Insert { row: r, v: mk(rng), rnd: 0.9 });
+        }
+        ops.push(all(rng));
+        ops.push(Op::Delete { row: 1 });
+        ops.push(all(rng));
+        ops.push(Op::Vacuum { max: 1000 });
+        ops.push(all(rng));
+        out.push(("delete_entry_point_then_search", base.clone(), ops));
+        // non-entry node deleted
+        let mut ops = vec![];
+        for r in 1..=5u64 {
+            ops.push(Op::Insert { row: r, v: mk(rng), rnd: 0.9 });
+        }
+        ops.push(Op::Delete { row: 3 });
+        ops.push(all(rng));
+        ops.push(Op::Vacuum { max: 1000 });
+        ops.push(all(rng));
+        out.push(("delete_other_then_search", base.clone(), ops));
+        // insert after delete
+        let mut ops = vec![];
+        for r in 1..=4u64 {
+            ops.push(Op::Insert { row: r, v: mk(rng), rnd: 0.9 });
+        }
+        ops.push(Op::Delete { row: 2 });
+        ops.push(Op::Insert { row: 9, v: mk(rng), rnd: 0.9 });
+        ops.push(all(rng));
+        out.push(("insert_after_delete", base.clone(), ops));
+        // more nodes than one neighbour list can hold
+        let mut ops = vec![];
+        for r in 1..=40u64 {
+            ops.push(Op::Insert { row: r, v: mk(rng), rnd: 0.9 });
+        }
+        ops.push(all(rng));
+        ops.push(all(rng));
+        out.push(("forty_nodes_full_width_search", base.clone(), ops));
+        // levels + reopen
+        let mut ops = vec![];
+        for r in 1..=12u64 {
+            ops.push(Op::Insert { row: r, v: mk(rng), rnd: if r % 4 == 0 { 0.0005 } else { 0.8 } });
+        }
+        let probes = (0..3).map(|_| Probe { q: mk(rng), k: 5, ef: 50 }).collect();
+        ops.push(Op::Reopen { probes });
+        ops.push(all(rng));
+        ops.push(Op::Insert { row: 13, v: mk(rng), rnd: 0.7 });
+        ops.push(all(rng));
+        out.push(("levels_reopen_insert", Params { m: 4, ..base.clone() }, ops));
+    }
+    out
+}
+
+// ------------------------------------------------------------------------------------------------
+// shrinking (ddmin over the op list; every candidate runs on a fresh file)
+// ------------------------------------------------------------------------------------------------
+
+fn has_sig(p: &Params, ops: &[Op], path: &Path, sig: &str, budget: &mut usize) -> Option<Viol> {
+    if *budget == 0 {
+        return None;
+    }
+    *budget -= 1;
+    TRACE.store(false, std::sync::atomic::Ordering::Relaxed);
+    let out = exec(p, ops, path);
+    out.viols.into_iter().find(|v| v.sig == sig)
+}
+
+fn shrink(p: &Params, ops: &[Op], path: &Path, sig: &str, upto: usize) -> (Vec<Op>, Option<Viol>, usize) {
+    let mut budget = 160usize;
+    let mut cur: Vec<Op> = ops[..=upto.min(ops.len() - 1)].to_vec();
+    let mut best = has_sig(p, &cur, path, sig, &mut budget);
+    if best.is_none() {
+        return (cur, None, 160 - budget);
+    }
+    let mut n = 2usize;
+    while cur.len() >= 2 && budget > 0 {
+        let chunk = (cur.len() + n - 1) / n;
+        let mut reduced = false;
+        let mut start = 0;
+        while start < cur.len() {
+            let end = (start + chunk).min(cur.len());
+            let cand: Vec<Op> = cur[..start].iter().chain(cur[end..].iter()).cloned().collect();
+            if !cand.is_empty() {
+                if let Some(v) = has_sig(p, &cand, path, sig, &mut budget) {
+                    cur = cand;
+                    best = Some(v);
+                    n = (n - 1).max(2);
+                    reduced = true;
+                    break;
+                }
+            }
+            start = end;
+        }
+        if !reduced {
+            if n >= cur.len() {
+                break;
+            }
+            n = (n * 2).min(cur.len());
+        }
+    }
+    (cur, best, 160 - budget)
+}
+
+// ------------------------------------------------------------------------------------------------
+// SQ8
+// ------------------------------------------------------------------------------------------------
+
+fn ulp(x: f32) -> f64 {
+    let a = x.abs().max(f32::MIN_POSITIVE);
+    (f32::from_bits(a.to_bits() + 1) - a) as f64
+}
+
+fn gen_sq8_vec(rng: &mut Rng) -> Vec<f32> {
+    let dim = if rng.chance(1, 6) { rng.usize(9, 40) } else { rng.usize(1, 8) };
+    match rng.below(9) {
+        0 => vec![(rng.f64() * 10.0 - 5.0) as f32; dim],
+        1 => (0..dim).map(|_| if rng.chance(1, 2) { -1.0 } else { 1.0 }).collect(),
+        2 => (0..dim).map(|_| (rng.f64() * 2.0 - 1.0) as f32).collect(),
+        3 => (0..dim).map(|_| rng.range(-128, 127) as f32).collect(),
+        4 => {
+            // large offset, small range: the step is below the spacing of f32 at that magnitude
+            let off = (rng.f64() * 2.0 - 1.0) * 10f64.powi(rng.range(0, 7) as i32);
+            let span = 10f64.powi(rng.range(-6, 2) as i32);
+            (0..dim).map(|_| (off + rng.f64() * span) as f32).collect()
+        }
+        5 => {
+            let s = 10f64.powi(rng.range(-20, 18) as i32);
+            (0..dim).map(|_| ((rng.f64() * 2.0 - 1.0) * s) as f32).collect()
+        }
+        6 => (0..dim).map(|_| *rng.pick(&[0.0f32, -0.0, 1.0, 255.0, 0.5, 127.5, 254.5, 1e-3])).collect(),
+        7 => {
+            // values sitting on half steps of a [0, 255*s] range
+            let s = (0.25 + rng.f64()) as f32;
+            let mut v: Vec<f32> = (0..dim).map(|_| (rng.below(511) as f32) * 0.5 * s).collect();
+            v.push(0.0);
+            v.push(255.0 * s);
+            v
+        }
+        _ => (0..dim).map(|_| (rng.f64() * 1.0e-3) as f32 + 1.0).collect(),
+    }
+}
+
+/// returns true if the vector had a non-degenerate range
+fn check_sq8(ctx: &mut Ctx, v: &[f32]) -> bool {
+    ctx.eval();
+    let vv = v.to_vec();
+    let r = catch(|| {
+        let sq = SQ8Vector::from_f32(&vv);
+        let dec = sq.decode();
+        let mut dec2 = vec![f32::NAN; vv.len()];
+        sq.decode_into(&mut dec2);
+        let mut buf = vec![0u8; sq.serialized_size()];
+        let n = sq.write_to(&mut buf);
+        let back = SQ8Vector::read_from(&buf, vv.len()).map(|b| b.decode()).map_err(|e| e.to_string());
+        let mut dec3 = vec![f32::NAN; vv.len()];
+        let viaref = SQ8VectorRef::from_bytes(&buf).map(|r| {
+            r.decode_into(&mut dec3);
+            r.dimension()
+        });
+        (sq.min(), sq.scale(), sq.data().to_vec(), dec, dec2, n, back, dec3, viaref.map_err(|e| e.to_string()))
+    });
+    let (min, scale, data, dec, dec2, n, back, dec3, viaref) = match r {
+        Ok(t) => t,
+        Err(p) => {
+            ctx.violation("no_panic", &format!("C25/no_panic/sq8@{}", crate::report::panic_site(&p)), json!({"v": fmt_f(v), "panic": p}));
+            return false;
+        }
+    };
+    let lo = v.iter().cloned().fold(f32::INFINITY, f32::min);
+    let hi = v.iter().cloned().fold(f32::NEG_INFINITY, f32::max);
+    let degenerate = !(hi > lo);
+    let step = if degenerate { 0.0 } else { scale as f64 };
+    let slack = 2.0 * ulp(lo.abs().max(hi.abs()));
+    if dec.len() != v.len() || data.len() != v.len() {
+        ctx.violation("decode_within_one_step", "C25/decode_within_one_step/decoded_length_differs", json!({"v": fmt_f(v), "decoded_len": dec.len()}));
+        return !degenerate;
+    }
+    for i in 0..v.len() {
+        let err = (dec[i] as f64 - v[i] as f64).abs();
+        if !(err <= step * 1.001 + slack) {
+            ctx.violation(
+                "decode_within_one_step",
+                "C25/decode_within_one_step/SQ8Vector::decode_error_exceeds_step",
+                json!({"v": fmt_f(v), "i": i, "decoded": dec[i] as f64, "original": v[i] as f64, "abs_err": err, "step": step, "min": min as f64, "code": data[i]}),
+            );
+            break;
+        }
+    }
+    let same = |a: &[f32], b: &[f32]| a.len() == b.len() && a.iter().zip(b).all(|(x, y)| x.to_bits() == y.to_bits());
+    let back_ok = matches!(&back, Ok(b) if same(b, &dec));
+    let ref_ok = matches!(&viaref, Ok(d) if *d == v.len()) && same(&dec3, &dec);
+    if !same(&dec2, &dec) || n != 8 + v.len() || !back_ok || !ref_ok {
+        ctx.violation(
+            "decode_within_one_step",
+            "C25/decode_within_one_step/sq8_serialized_form_decodes_differently",
+            json!({"v": fmt_f(v), "decode": fmt_f(&dec), "decode_into": fmt_f(&dec2), "written": n, "read_from": format!("{:?}", back), "ref_decode_into": fmt_f(&dec3)}),
+        );
+    }
+    !degenerate
+}
+
+// ------------------------------------------------------------------------------------------------
+// driver: the parent owns the Ctx; histories run in a worker subprocess with an address-space cap,
+// because a damaged index can ask for terabytes (alloc failure aborts, which catch_unwind cannot see)
+// ------------------------------------------------------------------------------------------------
+
+const N_DIRECTED: u64 = 10;
+
+fn splitmix64(mut z: u64) -> u64 {
+    z = z.wrapping_add(0x9E3779B97F4A7C15);
+    z = (z ^ (z >> 30)).wrapping_mul(0xBF58476D1CE4E5B9);
+    z = (z ^ (z >> 27)).wrapping_mul(0x94D049BB133111EB);
+    z ^ (z >> 31)
+}
+
+/// history number n of this seed (independent of every other history)
+fn history(seed: u64, n: u64) -> (String, Params, Vec<Op>, Vec<String>) {
+    let mut root = Rng::derive(seed, 25);
+    let _sq = root.next();
+    let base = root.next();
+    if n < N_DIRECTED {
+        let mut rng = Rng::new(base ^ 0xD12EC7ED);
+        let (label, p, ops) = directed(&mut rng).swap_remove(n as usize);
+        (format!("directed:{}", label), p, ops, vec![label.to_string()])
+    } else {
+        let mut rng = Rng::new(base ^ splitmix64(n));
+        let (p, ops, feats) = gen_history(&mut rng, false);
+        ("generated".to_string(), p, ops, feats.iter().map(|s| s.to_string()).collect())
+    }
+}
+
+fn outcome_json(n: u64, label: &str, feats: &[String], p: &Params, ops: &[Op], out: &Outcome) -> Value {
+    let shown: Vec<Value> = ops.iter().take(14).map(op_json).collect();
+    json!({
+        "n": n, "label": label, "features": feats, "params": params_json(p), "n_ops": ops.len(), "hash": hist_hash(p, ops), "callback": p.callback,
+        "nontrivial": out.inserts_ok >= 2 && out.searches_with_live >= 1,
+        "first_ops": shown,
+        "c": {
+            "searches": out.searches, "searches_with_live_rows": out.searches_with_live, "searches_after_a_delete": out.searches_after_delete,
+            "searches_with_entry_point_deleted": out.searches_entry_deleted, "complete_when_small_applicable": out.complete_checked,
+            "complete_when_small_applicable_within_link_capacity": out.complete_checked_within_capacity, "reopens": out.reopens,
+            "reopen_probe_comparisons": out.reopen_probes, "inserts_ok": out.inserts_ok, "inserts_err": out.inserts_err, "deletes_of_live_rows": out.deletes,
+            "vacuum_calls": out.vacuums, "vacuum_nodes_taken": out.vacuumed_nodes, "ops_skipped_invalid": out.skipped_ops,
+            "histories_stopped_at_failed_mutation": out.truncated_by_insert_error as u64, "histories_with_upper_levels": (out.max_level_seen > 0) as u64,
+            "histories_spanning_several_node_pages": out.multi_page as u64, "histories_beyond_33_nodes": (out.max_nodes > 33) as u64,
+            "histories_with_node_page_overflow": out.layout_overflowed as u64, "histories_layout_model_mismatch": out.layout_model_mismatch as u64
+        },
+        "viols": out.viols.iter().map(|v| json!({"assertion": v.assertion, "sig": v.sig, "detail": v.detail, "op_index": v.op_index})).collect::<Vec<_>>()
+    })
+}
+
+fn emit(tag: &str, v: &Value) {
+    use std::io::Write;
+    println!("{} {}", tag, v);
+    let _ = std::io::stdout().flush();
+}
+
+fn worker(a: &Args) -> i32 {
+    // args after "worker": <scratch dir> <mode> ...
+    //   range  <from> <step> <max> <budget seconds>
+    //   single <n>                      (one history, backtraces on)
+    //   shrink <n> <op_index> <sig>     (minimise the witness of <sig> in history n)
+    let r = &a.rest;
+    let dir = PathBuf::from(&r[1]);
+    let mode = r[2].as_str();
+    unsafe {
+        // A damaged index asks for absurd allocations; cap the address space so that they fail fast
+        // instead of being zero-filled (the single re-run needs room to symbolise its backtrace).
+        let cap: u64 = if mode == "single" { 1 << 30 } else { 192 << 20 };
+        let lim = libc::rlimit { rlim_cur: cap, rlim_max: cap };
+        libc::setrlimit(libc::RLIMIT_AS, &lim);
+        let nocore = libc::rlimit { rlim_cur: 0, rlim_max: 0 };
+        libc::setrlimit(libc::RLIMIT_CORE, &nocore);
+        // every insert/search allocates a 1 MiB visited set; keep such blocks on the heap instead of
+        // a fresh mmap + page faults each time (harness-side allocator tuning only)
+        libc::mallopt(libc::M_MMAP_THRESHOLD, 32 << 20);
+        libc::mallopt(libc::M_TRIM_THRESHOLD, 128 << 20);
+    }
+    let path = dir.join(format!("w{}.hnsw", std::process::id()));
+    match mode {
+        "shrink" => {
+            let n: u64 = r[3].parse().unwrap();
+            let opi: usize = r[4].parse().unwrap();
+            let sig = r[5].as_str();
+            let (_label, p, ops, _feats) = history(a.seed, n);
+            let (small, best, runs) = shrink(&p, &ops, &path, sig, opi);
+            match best {
+                Some(b) => emit("K", &json!({"sig": sig, "detail": {"minimised": true, "executions": runs, "original_ops": ops.len(), "history": hist_json(&p, &small), "violation": b.detail}})),
+                None => emit("K", &json!({"sig": sig, "detail": {"minimised": false, "history": hist_json(&p, &ops[..=opi.min(ops.len() - 1)])}})),
+            }
+            emit("END", &json!(n));
+        }
+        "single" => {
+            let n: u64 = r[3].parse().unwrap();
+            let (label, p, ops, feats) = history(a.seed, n);
+            emit("B", &json!(n));
+            TRACE.store(true, std::sync::atomic::Ordering::Relaxed);
+            let out = exec(&p, &ops, &path);
+            emit("R", &outcome_json(n, &label, &feats, &p, &ops, &out));
+            emit("END", &json!(n));
+        }
+        _ => {
+            let from: u64 = r[3].parse().unwrap();
+            let step: u64 = r[4].parse().unwrap();
+            let max: u64 = r[5].parse().unwrap();
+            let budget: f64 = r[6].parse().unwrap();
+            let start = std::time::Instant::now();
+            let mut n = from;
+            while n < max && start.elapsed().as_secs_f64() < budget {
+                let (label, p, ops, feats) = history(a.seed, n);
+                emit("B", &json!(n));
+                TRACE.store(true, std::sync::atomic::Ordering::Relaxed);
+                let out = exec(&p, &ops, &path);
+                emit("R", &outcome_json(n, &label, &feats, &p, &ops, &out));
+                n += step;
+            }
+            emit("END", &json!(n));
+        }
+    }
+    0
+}
+
+fn spawn_worker(a: &Args, dir: &Path, args: &[String], backtrace: bool, stderr_path: &Path) -> std::io::Result<std::process::Child> {
+    let exe = std::env::current_exe()?;
+    let errf = std::fs::File::create(stderr_path)?;
+    std::process::Command::new(exe)
+        .args(["C25", "--tier", &a.tier, "--seed", &a.seed.to_string(), "worker"])
+        .arg(dir)
+        .args(args)
+        .env("RUST_BACKTRACE", if backtrace { "1" } else { "0" })
+        .env_remove("RUST_LIB_BACKTRACE")
+        .stdin(std::process::Stdio::null())
+        .stdout(std::process::Stdio::piped())
+        .stderr(errf)
+        .spawn()
+}
+
+/// read the worker's lines with a watchdog; returns true if the worker had to be killed
+fn pump(child: &mut std::process::Child, idle_secs: u64, mut on_line: impl FnMut(&str, &str)) -> bool {
+    use std::io::BufRead;
+    let stdout = child.stdout.take().unwrap();
+    let (tx, rx) = std::sync::mpsc::channel::<String>();
+    let h = std::thread::spawn(move || {
+        let rd = std::io::BufReader::new(stdout);
+        for l in rd.lines() {
+            match l {
+                Ok(l) => {
+                    if tx.send(l).is_err() {
+                        break;
+                    }
+                }
+                Err(_) => break,
+            }
+        }
+    });
+    let mut hung = false;
+    loop {
+        match rx.recv_timeout(std::time::Duration::from_secs(idle_secs)) {
+            Ok(l) => {
+                let (tag, rest) = l.split_once(' ').unwrap_or((l.as_str(), ""));
+                on_line(tag, rest);
+            }
+            Err(std::sync::mpsc::RecvTimeoutError::Timeout) => {
+                hung = true;
+                let _ = child.kill();
+                break;
+            }
+            Err(_) => break,
+        }
+    }
+    let _ = h.join();
+    hung
+}
+
+fn stderr_summary(path: &Path) -> (String, String) {
+    let txt = std::fs::read_to_string(path).unwrap_or_default();
+    let first = txt.lines().find(|l| !l.trim().is_empty()).unwrap_or("").to_string();
+    let frame = txt.lines().map(|l| l.trim()).find(|l| l.contains("turdb::")).map(|l| l.splitn(2, ": ").nth(1).unwrap_or(l).to_string()).unwrap_or_default();
+    let cause = if first.starts_with("memory allocation of") {
+        if frame.is_empty() { "alloc_failure".to_string() } else { format!("alloc_failure@{}", frame) }
+    } else if !frame.is_empty() {
+        format!("abort@{}", frame)
+    } else {
+        "worker_died".to_string()
+    };
+    let excerpt: String = txt.lines().filter(|l| l.contains("memory allocation") || l.contains("turdb::") || l.contains("/repo/src")).take(14).collect::<Vec<_>>().join("\n");
+    (cause, excerpt)
+}
+
+enum Ev {
+    Hist(Value),
+    Death { n: u64, opi: usize, overflow: bool, hung: bool, status: String, cause: String, excerpt: String },
+    Finished,
+}
+
+struct SigRec {
+    assertion: String,
+    count: u64,
+    first_n: u64,
+    first_op: usize,
+    first: Value,
+    extras: Vec<Value>,
+}
+
+fn assertion_rank(a: &str) -> usize {
+    ["insert_ok", "live_only", "nonempty_if_live_exists", "complete_when_small", "no_abort", "reopen_invariant", "ranked_by_true_distance", "distinct", "at_most_k", "no_panic"]
+        .iter()
+        .position(|x| *x == a)
+        .unwrap_or(99)
+}
+
+const WORKERS: u64 = 8;
+
+pub fn run(a: &Args) -> i32 {
+    if a.rest.first().map(|s| s == "worker").unwrap_or(false) {
+        return worker(a);
+    }
+    let miri = cfg!(miri);
+    let mut ctx = Ctx::new(
+        "C25",
+        &a.tier,
+        a.seed,
+        "exploration",
+        "op histories on a real PersistentHnswIndex file (dimensions 1..8, <= 200 vectors incl. duplicates and zero vectors, M 2..16, ef_construction 1..200, both insert APIs, caller-supplied level randomness, delete_by_row_id, vacuum_batch, sync+reopen, re-insert of a deleted row id); model = map row_id -> vector of live rows, exact f64 distances. A case = one search (or one before/after-reopen probe pair) checked against the model; plus SQ8 encode/decode cases. distinct_nontrivial = distinct histories (hash of parameters+ops) with >= 2 successful inserts and >= 1 checked search over a non-empty live set, plus distinct SQ8 vectors with a non-degenerate range",
+    );
+    let mut root = Rng::derive(a.seed, 25);
+    let mut rng = Rng::new(root.next());
+    let quick = ctx.quick();
+
+    // ---- SQ8 (the only part that runs under Miri: everything else needs mmap) ----
+    let nsq = if miri { 300 } else if quick { 2_000_000 } else { 30_000_000 };
+    let mut sq_nontrivial = 0u64;
+    for i in 0..nsq {
+        let v = gen_sq8_vec(&mut rng);
+        if check_sq8(&mut ctx, &v) {
+            sq_nontrivial += 1;
+            if i < 50_000 {
+                let bytes: Vec<u8> = v.iter().flat_map(|x| x.to_bits().to_le_bytes()).collect();
+                ctx.nontrivial(fnv(&bytes) ^ 0x5158);
+            }
+        }
+        if i == 3 {
+            ctx.sample(json!({"kind": "sq8", "v": fmt_f(&v), "decoded": fmt_f(&SQ8Vector::from_f32(&v).decode())}));
+        }
+    }
+    ctx.extra.insert("sq8_wall_s".into(), json!((ctx.elapsed() * 100.0).round() / 100.0));
+    ctx.count("sq8_vectors", nsq as u64);
+    ctx.count("sq8_vectors_nondegenerate_range", sq_nontrivial);
+    if miri {
+        ctx.assumptions.push("Miri: only the SQ8 sub-check runs (the index needs mmap)".into());
+        return ctx.finish();
+    }
+
+    // ---- index histories: explore ----
+    let dir = PathBuf::from(format!("{}/scratch/c25-{}", crate::report::VERIF_DIR, std::process::id()));
+    if let Err(e) = std::fs::create_dir_all(&dir) {
+        ctx.inconclusive(&format!("cannot create scratch dir: {}", e));
+        return ctx.finish();
+    }
+    let explore_until = if quick { 33.0 } else { 400.0 };
+    let max_hist: u64 = if quick { 6_000 } else { 150_000 };
+    let (tx, rx) = std::sync::mpsc::channel::<Ev>();
+    let t0 = ctx.start;
+    let mut handles = vec![];
+    for w in 0..WORKERS {
+        let tx = tx.clone();
+        let dir = dir.clone();
+        let a2 = Args { prop: a.prop.clone(), tier: a.tier.clone(), seed: a.seed, replay: None, rest: vec![] };
+        handles.push(std::thread::spawn(move || {
+            let errp = dir.join(format!("stderr-{}.txt", w));
+            let mut next = w;
+            let mut fails = 0;
+            while next < max_hist && t0.elapsed().as_secs_f64() < explore_until {
+                let left = explore_until - t0.elapsed().as_secs_f64();
+                let args: Vec<String> = vec!["range".into(), next.to_string(), WORKERS.to_string(), max_hist.to_string(), format!("{}", left)];
+                let mut child = match spawn_worker(&a2, &dir, &args, false, &errp) {
+                    Ok(c) => c,
+                    Err(_) => {
+                        fails += 1;
+                        if fails > 3 {
+                            break;
+                        }
+                        continue;
+                    }
+                };
+                let mut last_b: Option<u64> = None;
+                let mut last_op: (usize, bool) = (0, false);
+                let mut ended: Option<u64> = None;
+                let hung = pump(&mut child, 90, |tag, rest| match tag {
+                    "B" => {
+                        last_b = rest.parse().ok();
+                        last_op = (0, false);
+                    }
+                    "O" => {
+                        let f: Vec<&str> = rest.split(' ').collect();
+                        if f.len() == 3 {
+                            last_op = (f[0].parse().unwrap_or(0), f[1] == "1");
+                        }
+                    }
+                    "R" => {
+                        if let Ok(v) = serde_json::from_str::<Value>(rest) {
+                            let _ = tx.send(Ev::Hist(v));
+                        }
+                        last_b = None;
+                    }
+                    "END" => ended = rest.parse().ok(),
+                    _ => {}
+                });
+                let status = format!("{:?}", child.wait().ok());
+                if let Some(e) = ended {
+                    next = e;
+                    continue;
+                }
+                match last_b {
+                    Some(n) => {
+                        let (cause, excerpt) = stderr_summary(&errp);
+                        let _ = tx.send(Ev::Death { n, opi: last_op.0, overflow: last_op.1, hung, status, cause, excerpt });
+                        next = n + WORKERS;
+                    }
+                    None => {
+                        // died between histories (or before the first): skip ahead, give up after a few
+                        fails += 1;
+                        if fails > 3 {
+                            break;
+                        }
+                        next += WORKERS;
+                    }
+                }
+            }
+            let _ = tx.send(Ev::Finished);
+        }));
+    }
+    drop(tx);
+    let mut finished = 0;
+    let mut sigs: BTreeMap<String, SigRec> = BTreeMap::new();
+    let mut hist_with_viol = 0u64;
+    let mut samples = 0;
+    let mut max_n_seen = 0u64;
+    while finished < WORKERS {
+        let ev = match rx.recv() {
+            Ok(e) => e,
+            Err(_) => break,
+        };
+        match ev {
+            Ev::Finished => finished += 1,
+            Ev::Hist(r) => {
+                ctx.count("histories", 1);
+                if let Some(c) = r["c"].as_object() {
+                    for (k, v) in c {
+                        ctx.count(k, v.as_u64().unwrap_or(0));
+                    }
+                }
+                ctx.evals(r["c"]["searches"].as_u64().unwrap_or(0) + r["c"]["reopen_probe_comparisons"].as_u64().unwrap_or(0));
+                ctx.count(if r["callback"].as_bool().unwrap_or(false) { "histories_insert_with_callback" } else { "histories_plain_insert" }, 1);
+                if r["nontrivial"].as_bool().unwrap_or(false) {
+                    ctx.nontrivial(r["hash"].as_u64().unwrap_or(0));
+                }
+                let n = r["n"].as_u64().unwrap_or(0);
+                max_n_seen = max_n_seen.max(n);
+                if (n < 2 || n % 211 == 17) && samples < 5 {
+                    samples += 1;
+                    ctx.sample(json!({"kind": r["label"], "features": r["features"], "params": r["params"], "n_ops": r["n_ops"], "first_ops": r["first_ops"]}));
+                }
+                let viols = r["viols"].as_array().cloned().unwrap_or_default();
+                if !viols.is_empty() {
+                    hist_with_viol += 1;
+                }
+                for v in viols {
+                    let sig = v["sig"].as_str().unwrap_or("").to_string();
+                    let d = json!({"history_no": n, "kind": r["label"], "features": r["features"], "params": r["params"], "n_ops": r["n_ops"], "at_op": v["op_index"], "violation": v["detail"]});
+                    let opi = v["op_index"].as_u64().unwrap_or(0) as usize;
+                    match sigs.get_mut(&sig) {
+                        Some(rec) => {
+                            rec.count += 1;
+                            // keep the witness from the shortest history as the one to minimise
+                            if r["n_ops"].as_u64().unwrap_or(0) < rec.first["n_ops"].as_u64().unwrap_or(0) {
+                                rec.first = d;
+                                rec.first_n = n;
+                                rec.first_op = opi;
+                            } else if rec.extras.len() < 1 {
+                                rec.extras.push(d);
+                            }
+                        }
+                        None => {
+                            sigs.insert(sig, SigRec { assertion: v["assertion"].as_str().unwrap_or("").to_string(), count: 1, first_n: n, first_op: opi, first: d, extras: vec![] });
+                        }
+                    }
+                }
+            }
+            Ev::Death { n, opi, overflow, hung, status, cause, excerpt } => {
+                ctx.count("histories", 1);
+                ctx.count("worker_deaths", 1);
+                if hung {
+                    ctx.count("worker_watchdog_kills", 1);
+                }
+                hist_with_viol += 1;
+                let kind = if hung { "hang_over_90s".to_string() } else { cause.split('@').next().unwrap_or("worker_died").to_string() };
+                let sig = if overflow { format!("C25/no_abort/{}/{}", kind, OVERFLOW_CAUSE) } else { format!("C25/no_abort/{}", kind) };
+                let (label, hp, hops, feats) = history(a.seed, n);
+                let d = json!({"history_no": n, "kind": label, "features": feats, "params": params_json(&hp), "n_ops": hops.len(), "worker_exit": status, "died_in_op": opi,
+                               "node_page_overflow_predicted_before_that_op": overflow, "stderr": excerpt});
+                match sigs.get_mut(&sig) {
+                    Some(rec) => {
+                        rec.count += 1;
+                        if opi < rec.first_op {
+                            rec.first = d;
+                            rec.first_n = n;
+                            rec.first_op = opi;
+                        }
+                    }
+                    None => {
+                        sigs.insert(sig, SigRec { assertion: "no_abort".into(), count: 1, first_n: n, first_op: opi, first: d, extras: vec![] });
+                    }
+                }
+            }
+        }
+    }
+    for h in handles {
+        let _ = h.join();
+    }
+    if max_n_seen + WORKERS < max_hist {
+        ctx.count("exploration_stopped_by_wall_budget", 1);
+    }
+
+    // ---- minimise the first witness of every unexplained signature; confirm worker deaths alone ----
+    let mut tasks: Vec<(String, u64, usize, bool)> = vec![];
+    for (sig, rec) in &sigs {
+        if ctx.is_known(sig).is_some() {
+            continue;
+        }
+        tasks.push((sig.clone(), rec.first_n, rec.first_op, rec.assertion == "no_abort"));
+    }
+    tasks.sort_by_key(|t| (assertion_rank(&sigs[&t.0].assertion), t.0.clone()));
+    tasks.truncate(32);
+    let tasks = std::sync::Arc::new(std::sync::Mutex::new(tasks));
+    let results = std::sync::Arc::new(std::sync::Mutex::new(HashMap::<String, Value>::new()));
+    let min_deadline = if quick { 48.0 } else { 520.0 };
+    let mut hs = vec![];
+    for w in 0..WORKERS {
+        let tasks = tasks.clone();
+        let results = results.clone();
+        let dir = dir.clone();
+        let a2 = Args { prop: a.prop.clone(), tier: a.tier.clone(), seed: a.seed, replay: None, rest: vec![] };
+        hs.push(std::thread::spawn(move || loop {
+            let t = { tasks.lock().unwrap().pop() };
+            let (sig, n, opi, is_abort) = match t {
+                Some(t) => t,
+                None => break,
+            };
+            if t0.elapsed().as_secs_f64() > min_deadline {
+                break;
+            }
+            let errp = dir.join(format!("min-stderr-{}.txt", w));
+            if is_abort {
+                let args: Vec<String> = vec!["single".into(), n.to_string()];
+                let mut survived = false;
+                let mut last: Option<usize> = None;
+                if let Ok(mut c) = spawn_worker(&a2, &dir, &args, true, &errp) {
+                    let _ = pump(&mut c, 60, |tag, rest| match tag {
+                        "O" => last = rest.split(' ').next().and_then(|x| x.parse().ok()),
+                        "END" => survived = true,
+                        _ => {}
+                    });
+                    let _ = c.wait();
+                }
+                let (cause, excerpt) = stderr_summary(&errp);
+                let (_l, hp, hops, _f) = history(a2.seed, n);
+                let upto = last.unwrap_or(opi).min(hops.len() - 1);
+                results.lock().unwrap().insert(
+                    sig,
+                    json!({"rerun_alone": {"died_again": !survived, "died_in_op": last, "cause": cause, "stderr": excerpt}, "history_up_to_fatal_op": hist_json(&hp, &hops[..=upto])}),
+                );
+            } else {
+                let args: Vec<String> = vec!["shrink".into(), n.to_string(), opi.to_string(), sig.clone()];
+                let mut k = Value::Null;
+                if let Ok(mut c) = spawn_worker(&a2, &dir, &args, false, &errp) {
+                    let _ = pump(&mut c, 60, |tag, rest| {
+                        if tag == "K" {
+                            k = serde_json::from_str::<Value>(rest).map(|v| v["detail"].clone()).unwrap_or(Value::Null);
+                        }
+                    });
+                    let _ = c.wait();
+                }
+                if !k.is_null() {
+                    results.lock().unwrap().insert(sig, k);
+                }
+            }
+        }));
+    }
+    for h in hs {
+        let _ = h.join();
+    }
+    let results = results.lock().unwrap().clone();
+
+    // ---- report ----
+    let mut order: Vec<String> = sigs.keys().cloned().collect();
+    order.sort_by_key(|s| (s.ends_with(OVERFLOW_CAUSE), assertion_rank(&sigs[s].assertion), s.clone()));
+    let mut by_sig = BTreeMap::new();
+    let mut witnesses = serde_json::Map::new();
+    // first pass: one (minimised) witness per signature, so that the few replay files cover many causes
+    for sig in &order {
+        let rec = &sigs[sig];
+        by_sig.insert(sig.clone(), rec.count);
+        let mut d = rec.first.clone();
+        if let Some(m) = results.get(sig) {
+            d["minimised_witness"] = m.clone();
+            if m.get("violation").is_some() {
+                d.as_object_mut().unwrap().remove("violation");
+            }
+        }
+        if ctx.is_known(sig).is_none() {
+            witnesses.insert(sig.clone(), d.clone());
+        }
+        ctx.violation(&rec.assertion, sig, d);
+    }
+    for sig in &order {
+        let rec = &sigs[sig];
+        let mut left = rec.count - 1;
+        for e in &rec.extras {
+            if left > 0 {
+                ctx.violation(&rec.assertion, sig, e.clone());
+                left -= 1;
+            }
+        }
+        for _ in 0..left {
+            ctx.violation(&rec.assertion, sig, json!({"note": "further occurrence; see the first witness of this signature"}));
+        }
+    }
+    ctx.count("histories_with_violation", hist_with_viol);
+    ctx.extra.insert("failed_sub_assertions_by_signature".into(), json!(by_sig));
+    if !witnesses.is_empty() {
+        // all first witnesses (the replay directory keeps only the first few files)
+        let wp = format!("{}/replay/C25/{}-seed{}-witnesses.json", crate::report::VERIF_DIR, a.tier, a.seed);
+        let _ = std::fs::create_dir_all(format!("{}/replay/C25", crate::report::VERIF_DIR));
+        let _ = std::fs::write(&wp, serde_json::to_string_pretty(&Value::Object(witnesses)).unwrap_or_default());
+        ctx.extra.insert("all_first_witnesses".into(), json!(wp));
+    }
+    let _ = std::fs::remove_dir_all(&dir);
+    ctx.assumptions.push("the index stores no vectors: distances come from the caller's row lookup, which returns None for rows that are not live (as a table would)".into());
+    ctx.assumptions.push("L2 indexes report squared Euclidean distance; this is accepted as 'the distance' (same order)".into());
+    ctx.assumptions.push("row id 0 is never used by the generator, so a returned row_id 0 is always a fabricated id".into());
+    ctx.assumptions.push("a history stops at the first failed insert/delete/vacuum (reported as its own sub-assertion); nothing is demanded of the state after a failed mutation".into());
+    ctx.assumptions.push("histories run in worker subprocesses with RLIMIT_AS = 192 MiB; a worker death is attributed to the history and op in flight (the op index is written before the op runs) and the first one per signature is confirmed by re-running that history alone".into());
+    ctx.finish()
 }
